@@ -104,7 +104,38 @@ def run(ctx):
         t = o.split()
         if t[1] != '1': viol.append(dict(why='file_info requested a seek beyond the file size', line=l[:20000], stderr=''))
         if int(t[0]) in (99, 101, 102): viol.append(dict(why='file_info: loop or internal code %s' % t[0], line=l[:20000], stderr=''))
-    ctx.cov['evaluations'] = len(lines) + len(plines) + len(flines)
+    # ---- nothing that was never written may reach the output: model-generated LZMA streams (valid, and invalid from some
+    # symbol on - matches / reps that reach outside the history, also at the very start) and damaged .xz files are decoded
+    # twice with different heap fill patterns (glibc MALLOC_PERTURB_); status and every output byte must agree
+    orc = oracle()
+    hdrv = compile_driver('hook', 'drv_dec.c', 'drv_dec')
+    glines = []
+    for _ in range(80 if ctx.quick() else 2500):
+        lc = rng.randrange(5); lp = rng.randrange(5 - lc); pb = rng.randrange(5)
+        toks = xzgen.gen_symbols(rng, rng.choice([1, 2, 3, 8, 30]), p_bad=rng.choice([0.5, 1.0]))
+        glines.append(('lzmaenc %d %d %d %s' % (lc, lp, pb, ' '.join(toks)), lc, lp, pb))
+    gouts, gf = run_lines(orc, [g[0] for g in glines])
+    if gf: raise BuildError('oracle failed %r' % (gf[0],))
+    ulines = []
+    for (cmd, lc, lp, pb), hx in zip(glines, gouts):
+        b = xzgen.alone_wrap(bytes.fromhex(hx), lc, lp, pb)
+        for mode in (0, 1, 3): ulines.append('dec 3 0 %d %d 0 %s' % (mode, rng.randrange(1 << 16), b.hex()))
+    for ln in lines[:(60 if ctx.quick() else 1500)]:
+        t = ln.split()
+        if t[0] == 'dec' and t[1] in ('0', '2', '3', '4'): ulines.append(ln)
+    uo = []
+    for fill in ('85', '170'):
+        os.environ['MALLOC_PERTURB_'] = fill
+        o_, f_ = run_lines(hdrv, ulines)
+        uo.append(o_)
+        for x in f_: viol.append(dict(why='decoder crashed (rc %s) with heap fill %s' % (x[2], fill), line=(x[0] or '')[:20000], stderr=x[1][-1500:]))
+    os.environ.pop('MALLOC_PERTURB_', None)
+    for l, a, b in zip(ulines, uo[0], uo[1]):
+        if a is None or b is None: continue
+        ta, tb = a.split(), b.split()
+        if (ta[0], ta[1], ta[2], ta[4]) != (tb[0], tb[1], tb[2], tb[4]):
+            viol.append(dict(why='the decoder\'s result depends on what happened to be in freshly allocated memory (status %s/%s, %s/%s bytes out): uninitialised memory reaches the output or a decision' % (ta[0], tb[0], ta[2], tb[2]), line=l[:20000], stderr=''))
+    ctx.cov['evaluations'] = len(lines) + len(plines) + len(flines) + 2 * len(ulines)
     ctx.cov['distinct_nontrivial'] = len(set((l.split()[1], l.split()[3], o.split()[0] if o else None) for l, o in zip(lines, outs))) + len(set((l.split()[1], o) for l, o in zip(plines, pouts)))
     ctx.cov['rule'] = 'ASan+UBSan+assertions build: stream, stream_mt, auto, alone, lzip, raw, stream_buffer decoders on valid/mutated/truncated/random inputs and tests/files x flags (CONCATENATED, TELL_*, IGNORE_CHECK, FAIL_FAST) x 5 slicings x memory limits {none,1,32Ki,1Mi}; Block Header, Stream Header/Footer, filter flags, properties, Index, VLI, filter-string parsers (to_filters/from_filters round trip, list), file_info; distinct = (entry point, mode, return code)'
     ctx.cov['input_distribution'] = dict(decoder_runs=len(lines), parser_runs=len(plines), fileinfo_runs=len(flines), return_codes=rets)
